@@ -24,17 +24,33 @@ func main() {
 	if err != nil {
 		panic(err)
 	}
-	fr := h.ValidityFragments()
-	w, err := h.NewWorld(u, cc, nil, h.WorldOpts{Fragments: fr, Validation: &dconfig.Validation{}})
+	fr := h.ChoiceFragments()
+	fr["cpv"] = &h.Fragment{Name: "cpv", Leaves: []h.Leaf{{P: h.Path{{Name: "mode"}, {Name: "pc"}}, Empty: true}, {P: h.Path{{Name: "mode"}, {Name: "pc"}, {Name: "pv"}}, V: "z"}}}
+	w, err := h.NewWorld(u, cc, nil, h.WorldOpts{Fragments: fr, Validation: &dconfig.Validation{}, RenderAll: true})
 	if err != nil {
 		panic(err)
 	}
 	log.SetLevel(log.ErrorLevel)
-	if len(os.Args) > 2 {
-		log.SetLevel(log.DebugLevel)
+	ops := []h.Op{
+		{Intents: []h.IntentSpec{{Owner: "B", Prio: 20, Frag: "ca1"}}},
+		{Intents: []h.IntentSpec{{Owner: "A", Prio: 10, Frag: "cpv"}}},
+		{Intents: []h.IntentSpec{{Owner: "A", Prio: 25, Frag: "cpc"}}},
 	}
-	out := w.Apply(h.Op{Intents: []h.IntentSpec{{Owner: "A", Prio: 10, Frag: os.Args[1]}}})
-	fmt.Println("rejected:", out.Rejected(), out.Err, out.Rsp)
+	for i, op := range ops {
+		if i == 2 && len(os.Args) > 1 {
+			log.SetLevel(log.DebugLevel)
+		}
+		out := w.Apply(op)
+		fmt.Println(op, "rejected:", out.Rejected(), out.Err)
+		c := w.Dev.Calls[len(w.Dev.Calls)-1]
+		fmt.Println("  proto upd:", c.Updates, "del:", c.Deletes)
+		for o, x := range c.R.XML {
+			fmt.Println("  xml", o, x)
+			break
+		}
+		fmt.Println("  json:", c.R.JSON)
+		fmt.Println("  device:", w.Dev.Snapshot())
+	}
 	_ = context.Background
 	_ = cache.Opts{}
 	_ = cachepb.Store_CONFIG
